@@ -47,6 +47,7 @@ type tcase struct {
 	CtxAt     time.Duration     `json:"ctx_at,omitempty"`
 	Client    string            `json:"client"` // scripted, file
 	FileHas   []string          `json:"file_has,omitempty"`
+	FileHalf  map[string]string `json:"file_half,omitempty"` // names whose file entry records no value (raw JSON of the entry)
 	Misconfig string            `json:"misconfig,omitempty"`
 	Plain     bool              `json:"plain_errors"` // the client's failures do not wrap the context error
 	ExpiryAge time.Duration     `json:"expiry_age,omitempty"`
@@ -185,6 +186,12 @@ func gen(rng *rand.Rand, idx int) tcase {
 		for _, d := range pool {
 			if rng.IntN(4) != 0 {
 				c.FileHas = append(c.FileHas, d)
+			} else if rng.IntN(2) == 0 {
+				if c.FileHalf == nil {
+					c.FileHalf = map[string]string{}
+				}
+				c.FileHalf[d] = []string{`{"secret":{"Version":4}}`, `{"secret":{"Version":4,"Value":""}}`, `{"secret":{"Version":4,"TextValue":""}}`,
+					`{"secret":null}`, `{}`, `{"secret":{}}`, `{"lastAccess":"12","secret":{"Version":1}}`}[rng.IntN(7)]
 			}
 		}
 	}
@@ -233,7 +240,7 @@ func TestC10(t *testing.T) {
 		runCase(t, r, c, tmp)
 	}
 	stop()
-	r.Require("returned_nil", "returned_error_ctx", "complete_cache_no_request", "retry_rounds", "fileclient_missing", "misconfig", "cache_ignored_as_invalid")
+	r.Require("returned_nil", "returned_error_ctx", "complete_cache_no_request", "retry_rounds", "fileclient_missing", "fileclient_entries_without_value", "misconfig", "cache_ignored_as_invalid")
 	r.Rule("seeded cases = declared names (1-6 of a 6-name pool, with duplicates, via Secrets and/or a run-time generated tagged struct) x cache content (none, empty, partial, complete, stale, invalid JSON, null entry, entry without secret, empty key, wrong JSON type, one entry with a wrongly typed field, read error) x per-secret service script (ok, fail k times, fail k times with the client's own timeout error, fail until T, hang until T, slow, never; failures with and without the context error wrapped) x expiry age {0, 1h, 30d} with old/zero/future cache stamps x context (background, deadline, cancel at T) x client kind (scripted / real FileClient). Distinct = (cache kind, set of script modes, context kind, client kind, outcome)")
 }
 
@@ -257,7 +264,15 @@ func runCase(t *testing.T, r *evid.Run, c tcase, tmp string) {
 		for _, n := range c.FileHas {
 			doc[n] = &cacheEntry{Secret: &api.SecretValue{Value: svcValue(n), Version: 3}}
 		}
-		b, _ := json.Marshal(doc)
+		raw := map[string]json.RawMessage{}
+		for n, e := range doc {
+			raw[n], _ = json.Marshal(e)
+		}
+		for n, e := range c.FileHalf {
+			raw[n] = json.RawMessage(e) // an entry that records no value is no value
+			r.Count("fileclient_entries_without_value", 1)
+		}
+		b, _ := json.Marshal(raw)
 		p := filepath.Join(tmp, fmt.Sprintf("fc%d.json", c.Idx))
 		os.WriteFile(p, b, 0o600)
 		fc, err := setec.NewFileClient(p)
